@@ -307,13 +307,30 @@ def check_neighbours(prog, rep, m):
             'different regions it takes the lower id and the pair is merged; %s' % (und or '; '.join(bad[:2])))
     # ---- G2 bookkeeping that is not per-pixel
     t = {T(s) for s in f.own_nodes() if isinstance(s, (ast.Assign, ast.AugAssign))}
-    dt = m.assigns.get('_regions_dtype', [])
-    okdt = len(dt) == 1 and T(dt[0]) in ('np.uint32', 'np.uint64', 'np.int64')
-    okalloc = isinstance(regions.dtype, str) and regions.dtype.replace(' ', '') == '_regions_dtype'
-    rep.add('G2', f, entry, 'region ids in fixed dtype %s' % (T(dt[0]) if dt else None), f.node.lineno, okalloc and okdt,
+    def dtype_of(text):
+        """the dtype an expression text names: a dtype literal, or a module constant (defined here or imported)"""
+        text = (text or '').replace(' ', '')
+        for _ in range(3):
+            if text in ('np.uint32', 'np.uint64', 'np.int64', 'numpy.uint32', 'numpy.uint64', 'numpy.int64'):
+                return text.replace('numpy.', 'np.')
+            vs_ = m.assigns.get(text, [])
+            if len(vs_) == 1:
+                text = T(vs_[0]).replace(' ', '')
+                continue
+            imp = m.imports.get(text)
+            if imp and imp[0] == 'attr':
+                tgt = prog.resolve_global(imp[1], imp[2])
+                if isinstance(tgt, tuple) and tgt and tgt[0] == 'modvalue':
+                    text = T(tgt[3]).replace(' ', '')
+                    continue
+            return None
+        return None
+    rdt = dtype_of(regions.dtype) if isinstance(regions.dtype, str) else None
+    rep.add('G2', f, entry, 'region ids in fixed dtype %s' % rdt, f.node.lineno, rdt is not None,
             'the region counter must live in a fixed wide integer dtype, independent of the raster dtype')
     # overflow: the fresh-id store is guarded by counter != max of that dtype, with a raise on the other path
-    okov = bool(k.raises) and any('iinfo(_regions_dtype).max' in repr(a) for a in opaque)
+    import re as _re
+    okov = bool(k.raises) and rdt is not None and any(dtype_of(x_) == rdt for a in opaque for x_ in _re.findall(r'iinfo\(([^()]*)\)\.max', repr(a)))
     rep.add('G2', f, entry, 'running out of ids raises', f.node.lineno, okov,
             'a pixel with no matching neighbour starts a new region; running out of ids must raise, not wrap')
     # masked pixels are region 0
@@ -1025,12 +1042,25 @@ def _eval_exit(R, dP, dF):
     endP, endF = R.end[R.P], R.end[R.F]
     preP, preF = w.pre[R.P], w.pre[R.F]
 
+    # the start values: what the variables hold when the walk begins.  When the walk runs once per pass of an outer loop
+    # that carries the position from the end of one walk to the start of the next, the position at the start of every pass
+    # IS the start parameter (the walk is only left on the start pixel - the very test decided here, by induction over the
+    # passes), so a start value remembered before the passes and one remembered in each pass are the same number
+    startsP = [preP]
+    pa_ = _atom(preP)
+    from ..sym import Sym as _Sym
+    if isinstance(pa_, _Sym) and '~loop' in pa_.name:
+        for l_ in R.outer:
+            c_ = getattr(l_, 'carried', {}).get(R.P)
+            if c_ and c_[0] == preP and isinstance(_atom(c_[1]), _Sym) and _atom(c_[1]).name.startswith(R.P + '~wout'):
+                startsP.append(Rat.sym(R.start))
+
     # the exit test compares (start value - value after the step): replace those differences by numbers
     def ev(c):
         if c[0] == 'cmp':
             d = c[3] if len(c) > 3 else c[2]
             for sign in (1, -1):
-                if d == (preP - endP) * Rat.const(sign):
+                if any(d == (p0 - endP) * Rat.const(sign) for p0 in startsP):
                     v = Fr(dP) * sign
                     break
                 if d == (preF - endF) * Rat.const(sign):
@@ -1157,14 +1187,27 @@ def check_misc(prog, rep, m):
     env0 = {'raster': ('param', rname), 'mask': ('param', mname)}
     W = w.expr('raster.data.shape[1]', env0, pub)
 
-    def case(single, masked):
+    def decider(single, masked):
         def decide(cnd):
+            if cnd[0] == 'not':
+                r_ = decide(cnd[1])
+                return None if r_ is None else not r_
             if cnd[0] == 'cmp' and cnd[1] in ('Eq', 'NotEq') and {tkey(cnd[2]), tkey(cnd[3])} == {tkey(W), tkey(('const', 1))}:
                 return single if cnd[1] == 'Eq' else not single
             if cnd[0] == 'cmp' and cnd[1] in ('Is', 'IsNot') and {tkey(cnd[2]), tkey(cnd[3])} == {tkey(('param', mname)), tkey(('const', None))}:
                 return (not masked) if cnd[1] == 'Is' else masked
+            if cnd[0] == 'cmp' and cnd[1] in ('Is', 'IsNot') and ('const', None) in (cnd[2], cnd[3]):
+                other = cnd[3] if cnd[2] == ('const', None) else cnd[2]
+                isnone = True if other == ('const', None) else (False if other[0] in ('data', 'call') else None)
+                if isnone is not None:
+                    return isnone if cnd[1] == 'Is' else not isnone
             return None
+        return decide
+
+    def case(single, masked):
+        decide = decider(single, masked)
         return {p: resolve(t_, decide) for p, t_ in b.items()}
+    callguards = {tkey(g_) for g_ in sc[0].guards}
 
     def flat(t_):
         """X if t_ is X.ravel() / X.ravel(order='C') / X.flatten() / X.reshape(-1), else None"""
@@ -1200,6 +1243,56 @@ def check_misc(prog, rep, m):
                 return parts[0] if len(set(parts)) == 1 else None
             return sum(parts) if all(isinstance(p_, int) for p_ in parts) else None
         return None
+    def cols(t_, decide=None):
+        """the columns of a mask term for a single-column raster, left to right: 'M' (the given mask's column), True or False
+        (a constant column); None when the term is not understood.  Built from allocations, hstack and whole-column stores."""
+        if tkey(t_) == tkey(mdata):
+            return ['M']
+        out_ = None
+        if t_[0] == 'call' and t_[1] == 'numpy.hstack' and t_[2] and t_[2][0][0] == 'tuple':
+            out_ = []
+            for x_ in t_[2][0][1]:
+                c_ = cols(x_, decide)
+                if c_ is None:
+                    return None
+                out_ += c_
+        elif t_[0] == 'call' and t_[1] in ('numpy.zeros_like', 'numpy.ones_like', 'numpy.full_like', 'numpy.zeros', 'numpy.ones', 'numpy.full') and t_[2]:
+            like = t_[1].endswith('_like')
+            n_ = size(t_[2][0], 1, True) if like else None
+            if not like:
+                shp_ = t_[2][0]
+                if shp_[0] == 'tuple' and len(shp_[1]) == 2:
+                    n_ = extent(shp_[1][1], 1, True)
+                elif shp_[0] == 'attr' and shp_[2] == 'shape':
+                    n_ = size(shp_[1], 1, True)
+            if not isinstance(n_, int):
+                return None
+            if 'full' in t_[1]:
+                fv = t_[2][1] if len(t_[2]) > 1 else dict(t_[3]).get('fill_value')
+                if not (fv and fv[0] == 'const' and fv[1] in (True, False, 0, 1)):
+                    return None
+                v_ = bool(fv[1])
+            else:
+                v_ = 'ones' in t_[1]
+            out_ = [v_] * n_
+        if out_ is None:
+            return None
+        for st in w.stores:
+            if st[0][0] == 'index' and tkey(st[0][1]) == tkey(t_):
+                # the store runs in this case iff its own guards (beyond those of the scan call itself) hold in it
+                gv = [decide(resolve(g_, decide)) if decide else None for g_ in st[2] if tkey(g_) not in callguards]
+                if any(x_ is None for x_ in gv):
+                    return None
+                if not all(gv):
+                    continue
+                ix = st[0][2]
+                if ix[0] == 'tuple' and len(ix[1]) == 2 and ix[1][0] == ('slice', None, None, None) and ix[1][1][0] == 'const' and \
+                        isinstance(ix[1][1][1], int) and -len(out_) <= ix[1][1][1] < len(out_) and st[1][0] == 'const' and \
+                        st[1][1] in (True, False, 0, 1):
+                    out_[ix[1][1][1]] = bool(st[1][1])
+                else:
+                    return None
+        return out_
     res = []
     for single in (False, True):
         for masked in (True, False):
@@ -1212,16 +1305,12 @@ def check_misc(prog, rep, m):
             if masked and not single:
                 okm = mk not in (None, 'none') and tkey(mk) == tkey(mdata)
             elif masked and single:
-                okm = mk not in (None, 'none') and mk[0] == 'call' and mk[1] == 'numpy.hstack' and mk[2] and mk[2][0][0] == 'tuple' and \
-                    len(mk[2][0][1]) == 2 and tkey(mk[2][0][1][0]) == tkey(mdata) and mk[2][0][1][1][0] == 'call' and \
-                    mk[2][0][1][1][1] in ('numpy.zeros_like', 'numpy.zeros')
+                okm = mk not in (None, 'none') and cols(mk, decider(single, masked)) == ['M', False]
             elif not masked and not single:
                 okm = mk == 'none'
             else:
-                # no mask given, padded raster: an all-False mask whose first column is set
-                okm = mk not in (None, 'none') and mk[0] == 'call' and mk[1] in ('numpy.zeros_like', 'numpy.zeros') and \
-                    any(st[0][0] == 'index' and tkey(st[0][1]) == tkey(mk) and st[1] == ('const', True) and
-                        st[0][2] == ('tuple', (('slice', None, None, None), ('const', 0))) for st in w.stores)
+                # no mask given, padded raster: the original column kept (True), the extra one masked out (False)
+                okm = mk not in (None, 'none') and cols(mk, decider(single, masked)) == [True, False]
             res.append(((single, masked), okv, oknx, okm))
     bad = [r for r in res if not (r[1] and r[2] and r[3])]
     rep.add('G7', pub, entry, 'scan receives the row-major flattened raster and mask, nx = columns, ny = rows; a single column is '
